@@ -120,6 +120,7 @@ inline std::uint64_t splitmix(std::uint64_t& s) {
 struct Ctx {
   std::uint64_t seed = 0;
   std::uint64_t state = 0;
+  bool small_sizes = false;   // endurance mode: containers and strings stay small (the call is repeated tens of thousands of times)
   bool correlated = false;    // operands of equal type are copies (or negations) of each other in this execution
   std::uint64_t exec_id = 0;  // unique per execution (warm/E0/E1 ...), used to scope the correlated-operand memo
   int vclass = -1;            // >=0: every number drawn in this op comes from that one special class (uniform operands)
@@ -240,8 +241,8 @@ inline constexpr int kNumberGrammarSize = static_cast<int>(sizeof(kNumberGrammar
 
 inline std::string arbitrary_bytes(Ctx& c) {
   static const int lens[] = {0, 1, 1, 2, 3, 4, 5, 8, 15, 16, 17, 31, 64, 200, 255, 256, 257, 1000, 5000};
-  size_t n = static_cast<size_t>(lens[c.below(c.below(8) ? 14 : 19)]);
-  if (c.below(24) == 0 && kNInterestingSizes > 0) {
+  size_t n = static_cast<size_t>(lens[c.below((c.small_sizes || c.below(8)) ? 14 : 19)]);
+  if (!c.small_sizes && c.below(24) == 0 && kNInterestingSizes > 0) {
     long k = kInterestingSizes[c.below(static_cast<std::uint64_t>(kNInterestingSizes))];
     if (k <= 70000) n = static_cast<size_t>(k);
   }
@@ -400,8 +401,8 @@ template <class T>
 struct Maker<std::vector<T>> {
   static std::vector<T> make(Ctx& c) {
     static const int sizes[] = {0, 0, 1, 2, 3, 4, 7, 8, 9, 16, 33, 64, 255, 1000, 4097};
-    size_t n = static_cast<size_t>(sizes[c.below(c.below(6) ? 12 : 15)]);
-    const std::uint64_t how = c.below(32);
+    size_t n = static_cast<size_t>(sizes[c.below((c.small_sizes || c.below(6)) ? 12 : 15)]);
+    const std::uint64_t how = c.small_sizes ? 99 : c.below(32);
     if (how < 3 && kNInterestingSizes > 0) n = static_cast<size_t>(kInterestingSizes[c.below(static_cast<std::uint64_t>(kNInterestingSizes))]);
     else if (how == 3) n = static_cast<size_t>(std::exp2(static_cast<double>(c.below(1700)) / 100.0));   // log-uniform up to ~131 000
     std::vector<T> v(n);
@@ -528,7 +529,11 @@ inline void consume(Ctx& c, const X& x) {
   } else if constexpr (has_Value<X>::value) {
     consume(c, x.Value());
   } else if constexpr (has_begin<X>::value) {
-    for (const auto& v : x) consume(c, v);
+    // long sequences: the ends and the length (every element of a 100 000-element vector would dominate the run)
+    std::size_t n = 0, i = 0;
+    for (const auto& v : x) { (void)v; ++n; }
+    for (const auto& v : x) { if (i < 192 || i + 192 >= n) consume(c, v); ++i; }
+    consume(c, n);
   } else if constexpr (has_Print<X>::value) {
     consume(c, x.Print());  // Dimensions, models
     if constexpr (has_GetType<X>::value) consume(c, x.GetType());
